@@ -22,8 +22,8 @@ func l2Opts(sc *core.Scenario) l2.Opts {
 func l2Base(idx int, ctx *core.Ctx) *core.Scenario {
 	r := core.ItemRNG(ctx.Seed, "C14-l2", idx)
 	var sc *core.Scenario
-	switch r.Intn(6) {
-	case 0:
+	switch r.Intn(7) {
+	case 0, 6:
 		prog, evs := work.Endless(r)
 		sc = &core.Scenario{Property: "C14", Seed: ctx.Seed, Index: idx, Kind: "l2:endless", Program: prog, Events: evs, RandSeed: 1, ReplayExact: true}
 	case 1:
@@ -64,7 +64,7 @@ func l2Base(idx int, ctx *core.Ctx) *core.Scenario {
 		sc.Kind = "l2:generated"
 	}
 	sc.Level = "L2"
-	sc.Schedule.ClockCostNs = int64([]int{5_000, 20_000, 100_000, 500_000}[r.Intn(4)])
+	sc.Schedule.ClockCostNs = int64([]int{5_000, 20_000, 100_000, 500_000, 7_000, 33_000, 61_000, 250_000}[r.Intn(8)])
 	sc.Schedule.Map.Default.Kind = "asc"
 	return sc
 }
